@@ -8,7 +8,8 @@ import Operon.Model.Gates
   `_evaluate_inflammation` are parameters (`InflCuts`, regenerated from the source into
   `Operon/Gen/GatesConsts.lean`); time is a `Nat` of microseconds.
 
-  Not modelled: `on_inflammation` callback, console output, `recent_alerts`, `triggered_at`, the
+  `on_inflammation` is an adversary like the membrane's `on_threat` (returns or raises, sees the public state).
+  Not modelled: console output, `recent_alerts`, `triggered_at`, the
   response's `actions` / `escalate_to` / `rate_limit_factor` (functions of the level only), messages,
   user-written validators.  `_measure_depth` is modelled without CPython's recursion limit (the harness keeps
   `max_depth` small, so its recursion is at most `max_depth + 2` deep).
@@ -98,18 +99,36 @@ def sumLevels : List Sig → Nat
   | [] => 0
   | s :: r => s.level + sumLevels r
 
+/-- what an `on_inflammation` hook can read through `stats()` / `get_inflammation_state()` while it runs -/
+structure InnView where
+  inflLevel : Nat
+  triggerCount : Nat
+  checkCount : Nat
+  blockCount : Nat
+
+/-- an `on_inflammation` callback: handed the response level; returns (`none`) or raises (`some cls`) -/
+abbrev InnHook := InnView → Nat → Option String
+
 structure Innate where
   patterns : List Sig
   validators : List Validator
   sevThreshold : Nat
   decay : Nat
   cuts : InflCuts
+  onInflammation : Option InnHook
   inflLevel : Nat
   triggerCount : Nat
   cooldownUntil : Option Nat
   checkCount : Nat
   blockCount : Nat
-  deriving Repr
+
+def Innate.view (im : Innate) : InnView := ⟨im.inflLevel, im.triggerCount, im.checkCount, im.blockCount⟩
+
+/-- `if self.on_inflammation and new_level > NONE: self.on_inflammation(response)` -/
+def innHookRaise (h : Option InnHook) (v : InnView) (lvl : Nat) : Option String :=
+  match h with
+  | none => none
+  | some f => f v lvl
 
 /-- constructor glue: `validators or [LengthValidator(max_length=100_000), CharacterSetValidator()]` — an
     empty list is falsy and gets the defaults too -/
@@ -120,7 +139,7 @@ def Innate.new (patterns : List Sig) (validators : Option (List Validator)) (def
       | none => defaults
       | some [] => defaults
       | some (v :: vs) => v :: vs
-    sevThreshold := sevThreshold, decay := decay, cuts := cuts
+    sevThreshold := sevThreshold, decay := decay, cuts := cuts, onInflammation := none
     inflLevel := lvlNone, triggerCount := 0, cooldownUntil := none, checkCount := 0, blockCount := 0 }
 
 structure CheckRes where
@@ -144,23 +163,27 @@ def Innate.levelOf (im : Innate) (now : Nat) (ms : List Sig) (errs : List Valida
 def Innate.levelFor (env : Env) (im : Innate) (now : Nat) (c : Str) (errs : List Validator) : Nat :=
   im.levelOf now (matched env im.patterns c) errs
 
-/-- last part of `check`: state update and allow rule, given matches, structural errors and the level -/
+/-- state after `_evaluate_inflammation` recorded a level above NONE (the check counter was bumped on entry) -/
+def Innate.inflame (im : Innate) (now lvl : Nat) : Innate :=
+  { im with checkCount := im.checkCount + 1
+            inflLevel := lvl, triggerCount := im.triggerCount + 1
+            cooldownUntil := some (now + im.decay) }
+
+/-- last part of `check`: inflammation state update, the `on_inflammation` hook (only for a level above NONE;
+    if it raises, `check` propagates the exception before the block counter is touched), then the allow rule -/
 def Innate.conclude (im : Innate) (now : Nat) (ms : List Sig) (errs : List Validator) (lvl : Nat) :
     Innate × Out CheckRes :=
-  if maxLevel ms < im.sevThreshold ∧ errs = [] ∧ lvl < lvlAcute then
-    if lvl > lvlNone then
-      ({ im with checkCount := im.checkCount + 1
-                 inflLevel := lvl, triggerCount := im.triggerCount + 1
-                 cooldownUntil := some (now + im.decay) },
-       .ok ⟨true, ms, errs, lvl⟩)
-    else
-      ({ im with checkCount := im.checkCount + 1 }, .ok ⟨true, ms, errs, lvl⟩)
+  if lvl > lvlNone then
+    match innHookRaise im.onInflammation (im.inflame now lvl).view lvl with
+    | some k => (im.inflame now lvl, .raise ("hook:" ++ k))
+    | none =>
+      if maxLevel ms < im.sevThreshold ∧ errs = [] ∧ lvl < lvlAcute then
+        (im.inflame now lvl, .ok ⟨true, ms, errs, lvl⟩)
+      else
+        ({ im.inflame now lvl with blockCount := im.blockCount + 1 }, .ok ⟨false, ms, errs, lvl⟩)
   else
-    if lvl > lvlNone then
-      ({ im with checkCount := im.checkCount + 1, blockCount := im.blockCount + 1
-                 inflLevel := lvl, triggerCount := im.triggerCount + 1
-                 cooldownUntil := some (now + im.decay) },
-       .ok ⟨false, ms, errs, lvl⟩)
+    if maxLevel ms < im.sevThreshold ∧ errs = [] ∧ lvl < lvlAcute then
+      ({ im with checkCount := im.checkCount + 1 }, .ok ⟨true, ms, errs, lvl⟩)
     else
       ({ im with checkCount := im.checkCount + 1, blockCount := im.blockCount + 1 }, .ok ⟨false, ms, errs, lvl⟩)
 
@@ -176,6 +199,15 @@ def Innate.check (env : Env) (im : Innate) (now : Nat) (c : Str) : Innate × Out
 def Innate.addPattern (im : Innate) (s : Sig) : Innate := { im with patterns := im.patterns ++ [s] }
 
 def Innate.addValidator (im : Innate) (v : Validator) : Innate := { im with validators := im.validators ++ [v] }
+
+/-- `im.validators = vs` (direct assignment: no `or defaults` glue, an empty list stays empty) -/
+def Innate.setValidators (im : Innate) (vs : List Validator) : Innate := { im with validators := vs }
+
+/-- `im.severity_threshold = t` -/
+def Innate.setSevThreshold (im : Innate) (t : Nat) : Innate := { im with sevThreshold := t }
+
+/-- `im.on_inflammation = h` -/
+def Innate.setHook (im : Innate) (h : Option InnHook) : Innate := { im with onInflammation := h }
 
 def Innate.resetInflammation (im : Innate) : Innate :=
   { im with inflLevel := lvlNone, triggerCount := 0, cooldownUntil := none }
